@@ -134,6 +134,9 @@ pub struct World {
     pub yield_faults: Vec<String>,
     pub respond_results: Vec<(usize, usize, bool)>,
     pub sndbuf_shrunk: bool,
+    /// requests already answered (kept so that a surplus response can be produced)
+    pub answered: Vec<Outstanding>,
+    pub surplus_responds: usize,
     /// descriptor 0 of the process, parked while the kill switch occupies that number
     pub saved0: Option<RawFd>,
     pub fd0_taken: bool,
@@ -323,6 +326,8 @@ impl World {
             yield_faults: vec![],
             respond_results: vec![],
             sndbuf_shrunk: false,
+            answered: vec![],
+            surplus_responds: 0,
             next_pad: 0,
             saved0,
             fd0_taken: kill_on_0,
@@ -696,7 +701,42 @@ impl World {
         }
         self.respond_results.push((o.c, o.j, ok));
         self.note(format!("respond(c{}r{}, {} {}B) -> {}", o.c, o.j, code, size, if ok { "Ok" } else { "Err" }));
+        if self.answered.len() >= 8 {
+            self.answered.remove(0);
+        }
+        self.answered.push(o);
         ok
+    }
+
+    /// The application hands in a second response for a request it has already answered
+    /// (`ServerRequest::process` can be called again). Only while nothing else is outstanding
+    /// for that client, so that the surplus cannot be taken for another request's answer. The
+    /// documented outcome is `Err(Underflow)`; the client may receive the surplus response.
+    pub fn respond_surplus(&mut self, i: usize) {
+        if self.answered.is_empty() {
+            return;
+        }
+        let i = i % self.answered.len();
+        let (c, j) = (self.answered[i].c, self.answered[i].j);
+        if self.outstanding.iter().any(|o| o.c == c) {
+            return;
+        }
+        let version = crate::connrun::version_code(self.answered[i].sreq.request.http_version());
+        let (resp, _) = self.make_response(c, j, 200, 10, version);
+        let mut slot = Some(resp);
+        let sresp = self.answered[i].sreq.process(|_| slot.take().unwrap_or_else(|| Response::new(micro_http::Version::Http11, micro_http::StatusCode::OK)));
+        self.clients[c].dirty = true;
+        let r = std::panic::catch_unwind(std::panic::AssertUnwindSafe(|| self.server.as_mut().unwrap().respond(sresp)));
+        let txt = match &r {
+            Ok(Ok(())) => "Ok".to_string(),
+            Ok(Err(e)) => serr(e),
+            Err(_) => "PANIC".to_string(),
+        };
+        if r.is_err() {
+            self.api_errors.push(format!("respond(surplus c{}r{}) -> PANIC", c, j));
+        }
+        self.surplus_responds += 1;
+        self.note(format!("respond(c{}r{} again: surplus) -> {}", c, j, txt));
     }
 
     pub fn respond_batch(&mut self, ks: &[usize], code: u16, size: usize) -> bool {
@@ -786,14 +826,21 @@ impl World {
         // unread input queued at the server's own descriptors shrinks whenever the server reads
         let fds = fd_set();
         let mut inq: i64 = 0;
+        // which sockets the server holds, by inode: an accept and a release in the same call leave
+        // the count (and possibly the descriptor numbers) unchanged, but never the identities
+        let mut ident: u64 = 0xcbf29ce484222325;
         for fd in fds.difference(&self.base) {
             let mut v: libc::c_int = 0;
             if unsafe { libc::ioctl(*fd, libc::FIONREAD, &mut v) } == 0 {
                 inq += v as i64;
             }
+            let mut st: libc::stat = unsafe { std::mem::zeroed() };
+            if unsafe { libc::fstat(*fd, &mut st) } == 0 {
+                ident = (ident ^ st.st_ino as u64).wrapping_mul(0x100000001b3);
+            }
         }
         let yielded: usize = self.clients.iter().map(|c| c.yielded.len()).sum();
-        (self.bytes_moved, fds.len(), inq, self.outstanding.len(), yielded)
+        (self.bytes_moved, fds.len() ^ (ident as usize), inq, self.outstanding.len(), yielded)
     }
 
     /// { push unsent; poll while ready; clients read everything } until nothing moves.
@@ -890,6 +937,7 @@ impl World {
 impl Drop for World {
     fn drop(&mut self) {
         self.outstanding.clear();
+        self.answered.clear();
         self.untagged.clear();
         self.server.take();
         for c in &self.clients {
